@@ -9,7 +9,10 @@ impl World {
             return false;
         }
         match a.phase {
-            Phase::NotStarted => true,
+            Phase::NotStarted => {
+                a.plan.start_after == 0
+                    || self.actors.iter().filter(|x| x.phase == Phase::Ended).count() >= a.plan.start_after as usize
+            }
             Phase::Connected => {
                 if a.pc >= a.script.len() {
                     return false;
@@ -367,6 +370,9 @@ impl World {
         let mut new_doomed = None;
         let mut check_version = None;
         if let TapInput::NewConnection { conn, version } = &input {
+            if !self.seen_raw.insert(*conn) {
+                *self.stats.probes.entry("connection-id-reused").or_insert(0) += 1;
+            }
             self.raw_to_actor.remove(conn);
             self.unmapped.insert(*conn);
             if let Some(i) = self.resolve_actor(*conn) {
@@ -455,6 +461,11 @@ impl World {
                 self.removed_unmapped.push((*c, *send_shutdown));
             }
             if let Some(a) = self.raw_to_actor.remove(c) {
+                if self.release_handles {
+                    // Let the connection id go back to the broker's pool (the harness holds a
+                    // ConnectionHandle per actor, which would pin the id for the whole run).
+                    self.actors[a].shared.borrow_mut().handle = None;
+                }
                 self.actors[a].removed = Some(*send_shutdown);
                 if !*send_shutdown {
                     self.actors[a].lossy_end = true;
@@ -930,6 +941,8 @@ pub fn run_wire(plan: &WirePlan, replay: Option<Vec<u32>>, tracing: bool) -> Run
         tap,
         pending_input: None,
         raw_to_actor: BTreeMap::new(),
+        seen_raw: BTreeSet::new(),
+        release_handles: plan.actors.iter().any(|a| a.start_after > 0),
         unmapped: BTreeSet::new(),
         removed_unmapped: Vec::new(),
         violations: Vec::new(),
@@ -997,6 +1010,13 @@ pub fn run_wire(plan: &WirePlan, replay: Option<Vec<u32>>, tracing: bool) -> Run
                 .min()
             {
                 w.stats.steps = t;
+                continue;
+            }
+            // Late joiners whose condition was never met connect now, before the teardown.
+            if w.actors.iter().any(|a| a.phase == Phase::NotStarted && a.plan.start_after > 0) {
+                for a in w.actors.iter_mut().filter(|a| a.phase == Phase::NotStarted) {
+                    a.plan.start_after = 0;
+                }
                 continue;
             }
             // Lost wake-ups: nothing is in flight now, so polling a parked task once more must not
